@@ -21,13 +21,21 @@ RULE = ("sparse LADiM datasets: 1..6 time slots (some empty), 0..50 instances (8
         "variables in any order with/without the plain count; calls: from_particles on the dataset, with time_idx, with renamed "
         "count/time/instance names, on a netCDF file name; ladim_raster with a centres-only grid, with explicit midway bounds, and with a "
         "per-particle bin variable; to_sqlite in memory and ladim_file_to_sqlite on 1..3 netCDF chunk files; get_settled_particles "
-        "(also on the empty dataset). Non-trivial: dataset with >= 1 instance.")
+        "(also on the empty dataset). File furniture of LADiM output (every call above gets it): the scalar `instance_offset` absent (30 %), 0, "
+        "smaller than / equal to / larger than the number of instances in the file, 1e6..3e9, int64 or int32, at any position among the "
+        "variables; the CF variable and global attributes ladim.output writes (50 %), `units` on the time stamps only for whole seconds "
+        "(then decoded to datetime64 when the file is opened by name). Split runs (50 % of cases): the dataset cut into 1..3 consecutive "
+        "files in time (file-local particle_instance dimension, whole particle table, instance_offset = instances in the preceding files, "
+        "optionally 1..299 more for earlier files), each file rasterised on its own by from_particles (dataset or file name) or "
+        "ladim_raster; the chunk files of ladim_file_to_sqlite carry the same cumulative offsets. Non-trivial: dataset with >= 1 instance.")
 ASSUMPTIONS = ["np.histogramdd is modelled by its documented binning (half-open bins, last bin closed) and checked against the real call",
                "weighted sums compared with 1e-12 relative to the sum of absolute weights (summation order of histogramdd); exactly when all weights "
                "are multiples of 0.25 below 2^11 (every partial sum is representable)",
                "the per-cell oracle is convention-free: a cell must hold at least the particles strictly inside it and at most those in its closure; "
                "per-cell weights are judged only in slots where no particle lies exactly on an edge",
-               "several netCDF files given to ladim_file_to_sqlite are chunks in time of one run, each carrying the whole particle table"]
+               "several netCDF files given to ladim_file_to_sqlite are chunks in time of one run, each carrying the whole particle table",
+               "`instance_offset` is bookkeeping of ladim's multi-file writer (instances stored in the preceding files); the particle_instance "
+               "dimension of every file is local, so each file of a split run is a sparse LADiM dataset whose time slots are sliced from 0"]
 
 SITE_FP = "ladim_plugins/utils/rasterize.py::from_particles"
 SITE_LR = "ladim_plugins/utils/rasterize.py::ladim_raster"
